@@ -26,6 +26,15 @@ CHECKS = {
  'C05': dict(technique='Coq-verified enumerator used twice (translations of the grammar, and of its full-information variant = derivation trees); both implications checked on the flag',
              text='Theorem: all_translations_spec. Correspondence: flag set => at least two derivation trees; two different translations => flag set; both one_parse values, all lookahead levels and cost settings.',
              design='6 C05'),
+ 'C09': dict(technique='Coq lemmas on facts regenerated from yaep.c (clamp expression = max 0 (min 2 l); cache distance threshold <= 1) + the la-free specifications of C01-C05; differential run of the implementation against itself across lookahead x debug levels with the guarded goto-cache self-check',
+             text='Theorems: C09_level_clamped and C09_cache_threshold are proved about expressions re-extracted from the source on every run (an edit of the clamp or of the threshold breaks the obligation); C09_verdict_determined: the prescribed verdict is a function of grammar and input only. Correspondence: all observables identical for la in {-3,0,1,2,7} x debug levels, and every goto-cache hit recomputed and compared (hook H1).',
+             design='6 C09'),
+ 'C14': dict(technique='Coq refinement theorem for the API object model (objects_independent: the results seen on one object are those of its own sub-history) + differential run of random multi-object histories against the extracted model and against fresh-object replays',
+             text='Theorems: C14_objects_independent, C14_error_state over all histories (induction on the call list). Correspondence: every setter / definition / error-code / parse call of a random history over 1-3 live objects returns what the model prescribes; every successful parse equals the same parse on a fresh object in a fresh process; no sanitizer report, no leak after everything is freed (LeakSanitizer), no double free in the tracked tree memory.',
+             design='6 C14'),
+ 'C15': dict(technique='Coq theorems about the setter/defaults/clamp facts regenerated from yaep.c and the object model (setter_contract, error_state_contract, parse codes) + differential run of histories against the extracted model',
+             text='Theorems: C15_setters, C15_source_setters_return_previous, C15_source_stored_values, C15_new_object, C15_error_state, C15_parse_codes; the generated facts (setter shapes, stored expressions, defaults) are re-extracted on every run. Correspondence: returned old values, error codes/messages, INVALID_TOKEN/UNDEFINED/NO_MEMORY codes, any negative end-of-input value, undeclared codes between declared ones.',
+             design='6 C15'),
 }
 
 m = {
